@@ -414,6 +414,42 @@ func TestVerifC38(t *testing.T) {
 				}
 			})
 			s.SetFree(false)
+			// finally: a cached tree pack is removed from the repository through the caching backend the way prune
+			// does it (a handle without the metadata flag); afterwards nothing may be served for it
+			if !dirCleared && tp.Choose(3) == 0 {
+				var victim string
+				for _, it := range items {
+					if it.kind == "tree" {
+						if pbs := repo2.idx.Lookup(restic.BlobHandle{ID: it.id, Type: restic.TreeBlob}); len(pbs) > 0 {
+							victim = pbs[0].PackID().String()
+						}
+					}
+				}
+				if victim != "" && store.Get(backend.Handle{Type: backend.PackFile, Name: victim}) != nil {
+					var rerr, lerr error
+					var got []byte
+					s.SetFree(true)
+					s.Do("remover", proc, func() {
+						// make sure it is cached, then remove it
+						_ = repo2.be.Load(ctx, backend.Handle{Type: backend.PackFile, Name: victim, IsMetadata: true}, 0, 0, func(rd io.Reader) error {
+							_, err := io.ReadAll(rd)
+							return err
+						})
+						rerr = repo2.be.Remove(ctx, backend.Handle{Type: backend.PackFile, Name: victim})
+						lerr = repo2.be.Load(ctx, backend.Handle{Type: backend.PackFile, Name: victim, IsMetadata: true}, 0, 0, func(rd io.Reader) error {
+							var err error
+							got, err = io.ReadAll(rd)
+							return err
+						})
+					})
+					s.SetFree(false)
+					s.Count("fault:tree-pack-removed-through-cache")
+					if rerr == nil && lerr == nil && store.Get(backend.Handle{Type: backend.PackFile, Name: victim}) == nil {
+						r.Fail("same-bytes", "served-file-the-repository-lacks", "tree pack %s was removed through the caching backend, yet a load through the cache still returns %d bytes without an error", victim[:8], len(got))
+					}
+					return
+				}
+			}
 			for _, f := range listCache() {
 				name := filepath.Base(f)
 				var h backend.Handle
